@@ -5,7 +5,7 @@ import random
 
 from vf import gen, ref
 from vf.core import call, exc_desc
-from vf.lazy import ck, libx, common
+from vf.lazy import ck, libx, common, np
 
 PROP = "C19"
 TECHNIQUE = ('exhaustive enumeration of the validation grid (3^12 / 4^12 tuples) through the real constructor + runtime monitoring of scaling (snapshots, score homogeneity) and of equivalence / nickname on pairs with known truth')
@@ -133,7 +133,7 @@ def run_random(spec, ctx):
     S = ck.ScoringScheme
     for i in range(spec["n_cases"]):
         rng = random.Random(f"{spec['seed']}/C19/{spec['shard']}/{i}")
-        kind = rng.choice(["malformed", "scaling", "scaling", "equiv", "equiv", "equiv", "nickname"])
+        kind = rng.choice(["malformed", "scaling", "scaling", "equiv", "equiv", "equiv", "nickname", "valid-types"])
         ctx.evaluations += 1
         _, base = gen.scheme(rng, "S1 S2 S3 S3 S4 S6")
         if kind == "malformed":
@@ -156,8 +156,54 @@ def run_random(spec, ctx):
                 nm, bld = rng.choice(UNJUDGED)
                 stu, gu = call(S, bld([list(base[0]), list(base[1])]))
                 ctx.count(f"unjudged:{nm}:{'accepted' if stu == 'ok' else type(gu).__name__}")
+        elif kind == "valid-types":
+            # "two lists of six non-negative numbers": the numbers a caller's code produces are not always plain floats --
+            # numpy float64 (np.linspace, np.mean), subclasses of float / int, ints and bools for integral values, tuples
+            # for the two vectors
+            class Penalty(float):
+                """a float subclass, as unit-carrying or traced numbers are"""
+            how = rng.choice(["np.float64", "np.float64", "float-subclass", "int-where-integral", "bool-where-0-1", "tuples",
+                              "np.float64-one-entry"])
+            def conv(v, j):
+                if how == "np.float64" or (how == "np.float64-one-entry" and j == 1):
+                    return np.float64(v)
+                if how == "float-subclass":
+                    return Penalty(v)
+                if how == "int-where-integral" and float(v).is_integer():
+                    return int(v)
+                if how == "bool-where-0-1" and v in (0.0, 1.0):
+                    return bool(v)
+                return v
+            arg = [[conv(v, j) for j, v in enumerate(base[0])], [conv(v, j) for j, v in enumerate(base[1])]]
+            if how == "tuples":
+                arg = (tuple(arg[0]), tuple(arg[1]))
+            st, got = call(S, arg)
+            ctx.count("valid_schemes_of_other_number_types")
+            ctx.count("valid-types:" + how)
+            case = {"scheme": base, "number_type": how}
+            if st == "exc":
+                if how == "tuples":
+                    ctx.count("tuples_refused:" + type(got).__name__)      # "two lists": a refusal of tuples is not judged
+                else:
+                    ctx.violation(f"C19/valid-scheme-rejected:{how}", f"a valid scheme whose penalties are {how} values was "
+                                  f"refused: {exc_desc(got)}", case, observed=type(got).__name__, expected="accepted")
+                continue
+            pv = got.penalty_vectors
+            if [[ref.fr(float(v)) for v in pv[0]], [ref.fr(float(v)) for v in pv[1]]] != \
+                    [[ref.fr(v) for v in base[0]], [ref.fr(v) for v in base[1]]]:
+                ctx.violation("C19/valid-scheme-stored-with-other-values", f"penalties given as {how} are stored as {pv}", case,
+                              observed=pv, expected=base)
+                continue
+            stq, eq = call(got.is_equivalent_to, S([list(base[0]), list(base[1])]))
+            if stq == "exc" or eq is not True:
+                ctx.violation("C19/is_equivalent_to:reported-different", f"a scheme given as {how} values is not reported "
+                              f"equivalent to the same scheme given as floats ({exc_desc(eq) if stq == 'exc' else eq})", case)
+            else:
+                ctx.nontrivial(case)
         elif kind == "scaling":
             k = rng.choice(gen.SCALES + [1.0, 1, 2, 3, 0.75])
+            if rng.random() < 0.15:
+                k = np.float64(k)
             s = S([list(base[0]), list(base[1])])
             snapshot = [list(s.penalty_vectors[0]), list(s.penalty_vectors[1])]
             left = rng.random() < 0.5
@@ -329,6 +375,14 @@ def replay(wit, ctx):
         print("replay: this witness kind is re-checked by running the check itself")
 
 
+def _reach_types(counters, k):
+    out = []
+    for how in ("np.float64", "float-subclass", "int-where-integral", "bool-where-0-1"):
+        v = counters.get("valid-types:" + how, 0)
+        out.append({"name": f"valid schemes given as {how} values", "observed": v, "required": 40 * k, "ok": v >= 40 * k})
+    return out
+
+
 def reach(counters, tier, info):
     out = []
     total = counters.get("grid_size_expected", 0)
@@ -354,4 +408,5 @@ def reach(counters, tier, info):
     for nm, _b, _w in MALFORMED:
         c = counters.get("malformed:" + nm, 0)
         out.append({"name": f"malformed kind {nm}", "observed": c, "required": 10, "ok": c >= 10})
+    out += _reach_types(counters, k)
     return out
